@@ -823,7 +823,8 @@ def runAfetchFull (argv : List String) (files : String → Option (List Char)) :
     per-column fractional counts and rounds to the nearest integer since edf1c28) -/
 def runAlistatSmall (p : Parsed) (files : String → Option (List Char)) : Option (String × List (String × List Char)) := do
   if !fmtIs p "--informat" "pfam" then none
-  if !p.vals.all (fun kv => kv.1 == "--informat") || p.has "--noambig" || p.has "--weight" then none
+  -- `--small` accepts --list / --icinfo / --rinfo / --cinfo / --pcinfo (the table forbids --psinfo --iinfo --bpinfo --noambig --weight)
+  if !p.vals.all (fun kv => ["--informat", "--list", "--icinfo", "--rinfo", "--cinfo", "--pcinfo"].contains kv.1) || p.has "--noambig" || p.has "--weight" then none
   let V ← match p.has "--dna", p.has "--rna", p.has "--amino" with
     | true, false, false => some Ali.viewsDna
     | false, true, false => some Ali.viewsRna
@@ -841,7 +842,19 @@ def runAlistatSmall (p : Parsed) (files : String → Option (List Char)) : Optio
     let nm := v.name.map Ali.bytesStr
     if p.has "-1" then Small.smallOneLine v.nali nm "Pfam" st.nseq v.alen st.nres (avgLen st.nres st.nseq)
     else Small.renderSmall (Small.alistatLines v.nali nm "Pfam" st.nseq v.alen st.nres st.small st.large (avgLen st.nres st.nseq) (pct0 (avgId V.c crow 1000)))
-  some ((if p.has "-1" then Small.smallOneLineHeader else "") ++ String.join (vs.map one), [])
+  let summary := (if p.has "-1" then Small.smallOneLineHeader else "") ++ String.join (vs.map one)
+  let outs := ["--list", "--icinfo", "--rinfo", "--cinfo", "--pcinfo"].filterMap p.val?
+  if outs.isEmpty then return (summary, [])
+  -- the info files: `esl_msafile2_ReadInfoPfam` collects the same per-column counts (`esl_abc_DCount`, sequence by sequence) and the same
+  -- PP counts as `count_msa`, and the SAME dump functions print them: the files and the "saved to file" notes are those of the non-small
+  -- reference on the same file (`Ali.alistatInfo`); only the summary in front of the notes is the --small one
+  if outs.eraseDups.length != outs.length || outs.contains fn then none
+  let o : Ali.AlistatOpts := { oneLine := p.has "-1", list := p.val? "--list", icinfo := p.val? "--icinfo", rinfo := p.val? "--rinfo",
+                               cinfo := p.val? "--cinfo", pcinfo := p.val? "--pcinfo" }
+  let (full, written) ← Ali.alistatInfo V o "pfam" fn src
+  let (bare, _) ← Ali.alistatInfo V { oneLine := p.has "-1" } "pfam" fn src
+  if !full.startsWith bare then none
+  some (summary ++ (full.drop bare.length).toString, written.map fun (f, t) => (f, t.toList))
 
 /-- esl-alistat [-1] [--list f] [--icinfo f] [--rinfo f] [--iinfo f] [--cinfo f [--noambig]] --informat (stockholm|pfam) (--dna|--rna|--amino) <msafile>:
     digital-mode Stockholm input, summary on stdout, the optional output files -/
